@@ -35,6 +35,8 @@ def mutants(only):
         p = os.path.join(d, n)
         if only and only not in n:
             continue
+        if n == "REVERT_PROPS.json":
+            continue
         if n.endswith(".json"):
             m = json.load(open(p))
             props = m["property"] if isinstance(m["property"], list) else [m["property"]]
